@@ -363,7 +363,10 @@ public:
                   RealScalar tol = 1e-10, SortRule sorting = SortRule::LargestAlge)
     {
         // The m-step Lanczos factorization
-        m_fac.factorize_from(1, m_ncv, m_nmatop);
+        // Right after init() the factorization has one step. If compute() is called again
+        // without init(), the existing m-step factorization is continued: restarting from
+        // step 1 would combine the first basis vector with the residual of step m
+        m_fac.factorize_from((std::max)(Index(1), m_fac.subspace_dim()), m_ncv, m_nmatop);
         retrieve_ritzpair(selection);
         // Restarting
         Index i, nconv = 0, nev_adj;
